@@ -13,12 +13,14 @@ RULE = ("tables of ~60 rows per do_call(method=threshold): log2 = every threshol
         "the defaults and random strictly increasing vectors of length 1..12; ploidy 1..6 x {autosome, X, Y} x hapX "
         "x naming style (incl. upper/lower case); BAF grid {0, 1/4, 1/2, 3/4, 1, random, missing}; plus clonal calls at purity "
         "0.2..0.99 with the BAFs supplied as variants (0..3 SNPs per segment, frequencies incl. 0, 0.01, 0.99, 1), where "
-        "the purity rescale pushes BAF outside [0,1]. "
+        "the purity rescale pushes BAF outside [0,1]; plus threshold calls at purity 0.2..0.99 (the scan then reads the rescaled log2; a "
+        "third of the rows aimed 1e-6 / 1e-3 either side of a threshold in rescaled space). "
         "non-trivial = table holds a log2 exactly at a threshold or within one ulp of it, or above the last threshold; "
         "distinct by hash")
 EXHAUSTIVE = {"quick": False, "thorough": False}
-ASSUMPTIONS = ["thresholds strictly increasing, length >= 1; no purity (on the purity path the threshold scan re-reads a float log2 "
-               "the exact model cannot reproduce; that path's rescaling is covered by C01)",
+ASSUMPTIONS = ["thresholds strictly increasing, length >= 1; on the purity path the threshold scan re-reads the float log2 the "
+               "rescaling wrote: the model compares the rescaled ratio with the antilogs 2**thr (exact doubles, a parameter), "
+               "rows within 1e-8 (relative) of a threshold antilog are knife-edges",
                "ceil(r*2^log2) within 1e-9 of an integer is a knife-edge (skipped for model equality)"]
 TRUSTED_EXTRA = ["numpy ceil/round, float pow"]
 CLAUSES = {"rowcount_preserved", "nan_gives_reference", "threshold_step", "monotone_in_log2", "allelic_sum",
@@ -105,6 +107,38 @@ def _table(rng, nrows=60):
                    "thr": [frac(t) for t in thr], "thr_f": thr, "has_baf": has_baf, "check_monotone": is_default}}
 
 
+def _ptable(rng, nrows=40):
+    """threshold call at a purity < 1: the scan reads the log2 that the purity rescaling just rewrote.  A third of
+    the rows are placed so that the RESCALED ratio lands just below / above a threshold (relative offset 1e-6)."""
+    c = _table(rng, nrows)
+    i = c["in"]
+    purity = rng.choice([0.3, 0.5, 0.6, 0.75, 0.9, round(rng.uniform(0.2, 0.99), 2)])
+    ploidy, hapx, female, thr = i["ploidy"], i["hapX"], i["female"], i["thr_f"]
+    rows, log2s = [], []
+    for r, lg in zip(i["rows"], i["log2_f"]):
+        if lg is None:
+            continue  # a missing log2 has no rescaled value
+        cl = r[0].lower().replace("chr", "")
+        cls = "x" if cl == "x" else "y" if cl == "y" else "auto"
+        rr, xx = K.prose_copies(cls, ploidy, hapx, female)
+        if rng.random() < 0.35 and rr > 0:
+            # aim at a threshold in rescaled space: ratio' = 2^thr (halved where log2_ratios adds 1)
+            th = rng.choice(thr)
+            f = 2.0 if (cls == "y" or (cls == "x" and hapx)) else 1.0
+            a = ploidy * (2.0 ** th) / f * (1 + rng.choice([-1e-6, 1e-6, -1e-3, 1e-3]))
+            t = (a * purity + xx * (1 - purity)) / rr
+            if t > 0:
+                lg = math.log2(t)
+        rows.append([r[0], r[1], r[2], frac(lg), frac(2.0 ** lg), r[5]])
+        log2s.append(lg)
+    if not rows:
+        rows, log2s = [["chr1", 0, 100, frac(0.0), frac(1.0), None]], [0.0]
+    i.update(rows=rows, log2_f=log2s, purity=frac(purity), purity_f=purity, check_monotone=False,
+             thr_pow2=[frac(2.0 ** t) for t in thr])
+    c["tag"] = "thr-purity"
+    return c
+
+
 def _vtable(rng, nrows=30):
     """clonal call at a purity < 1 with the b-allele frequencies supplied as variants (0..3 SNPs per segment)"""
     ploidy = rng.randint(1, 5)
@@ -160,6 +194,7 @@ def gen_cases(rng, tier):
         c["tag"] += "-cli"
         cases.append(c)
     cases += [_vtable(rng) for _ in range({"quick": 30, "thorough": 300, "search": 60}[tier])]
+    cases += [_ptable(rng) for _ in range({"quick": 40, "thorough": 400, "search": 80}[tier])]
     return cases
 
 
@@ -167,6 +202,8 @@ def nontrivial(case, impl, resp):
     i = case["in"]
     if i.get("variants"):
         return bool(i["snps_f"])
+    if i.get("purity_f"):
+        return True
     thr = i["thr_f"]
     for lg in i["log2_f"]:
         if lg is None:
